@@ -513,6 +513,9 @@ func ownerField(baseType types.Type, i int) string {
 	name := "?"
 	if n, ok := t.(*types.Named); ok {
 		name = n.Obj().Name()
+		if old, renamed := typeAlias[name]; renamed {
+			name = old
+		}
 	} else {
 		name = types.TypeString(t, func(*types.Package) string { return "" })
 		if len(name) > 24 {
